@@ -21,6 +21,8 @@ import tempfile
 
 import common
 from common import Failure, cN, cnat, cbool, clist, copt, ctext
+
+EXTRA_PROPS = ['C10C01']  # composition with the executor model (Props/C10C01.v): the verdict table of program runs through full_execute
 import impl  # noqa: F401  (sets sys.path)
 
 EXPLANATION = ('Theorems (Props/C10.v) over the Gallina model of program resolution / accumulation '
